@@ -40,7 +40,7 @@ MIN_REACH = {
 TIME_BUDGET = {"quick": 300, "thorough": 3000}
 
 KINDS = ["int", "float", "str", "tuple:2", "tuple:3", "array:3", "array:2x2", "list:2", "bool", "mixed"]
-SPLIT_KINDS = ["tuple:2", "tuple:3", "multi:s,a2,t", "mixed"]
+SPLIT_KINDS = ["tuple:2", "tuple:3", "multi:s,a2,t", "mixed", "array:2", "array:3", "list:2", "array:2x2"]
 
 
 def _gen_case(rng, strategy):
